@@ -31,7 +31,7 @@ ASSUMPTIONS = [
     "the effect of a hook is observed on cases drawn with generate_one(as_strategy(...)) (marker in query/headers, call log)",
     "auth fallback from a scope whose providers all filter the operation out to a lower scope is not asserted (statement silent)",
 ]
-BOUNDS = {"histories_enum": "all histories of <=2 (quick) / <=3 (thorough) steps over hooks {map_query, map_case} x 3 scopes x forms {plain, named, chain-then-name} x 5 filter chains + unregister_one"}
+BOUNDS = {"histories_enum": "all histories of <=2 (quick) / <=3 (thorough) steps over hooks {map_query, map_case} x 3 scopes x forms {plain, named, chain-then-name} x 5 filter chains + unregister_one + re-registration of an unregistered function object (2 scopes x 2 forms x 2 chains)"}
 
 OPS = [
     {"method": "get", "path": "/a", "tags": ["A"], "operation_id": "geta"},
@@ -124,6 +124,7 @@ class World:
         self.test_disp = H.HookDispatcher(scope=H.HookScope.TEST)
         self.test_auth = None
         self.hooks: list[dict] = []  # live hook registrations
+        self.retired: list[dict] = []  # unregistered ones: their function objects can be registered again
         self.auth: dict = {"global": [], "schema": [], "test": []}
         self.n = 0
         self.calls: set = set()
@@ -206,10 +207,18 @@ class World:
     # -- steps --------------------------------------------------------------------------------------------------
     def step(self, s):
         op = s["op"]
-        if op == "register":
-            idx = self.n
-            self.n += 1
-            fn = self._make_hook(idx, s["hook"])
+        if op == "reregister" and not self.retired:
+            return
+        if op in ("register", "reregister"):
+            if op == "reregister":
+                # the *same function object* that was registered (possibly with other filters) and unregistered before
+                old = self.retired.pop(s["which"] % len(self.retired))
+                idx, fn = old["idx"], old["fn"]
+                s = dict(s, hook=old["hook"])
+            else:
+                idx = self.n
+                self.n += 1
+                fn = self._make_hook(idx, s["hook"])
             reg = self._registrar(s["scope"])
             chain = s["chain"]
 
@@ -242,8 +251,10 @@ class World:
             if self.hooks:
                 h = self.hooks.pop(s["which"] % len(self.hooks))
                 self._dispatcher(h["scope"]).unregister(h["fn"])
+                self.retired.append(h)
         elif op == "unregister_all":
             self._dispatcher(s["scope"]).unregister_all()
+            self.retired += [h for h in self.hooks if h["scope"] == s["scope"]]
             self.hooks = [h for h in self.hooks if h["scope"] != s["scope"]]
         elif op == "auth":
             idx = self.n
@@ -389,7 +400,9 @@ chain_strategy = st.lists(st.sampled_from(TERMS), max_size=2).filter(_valid_chai
 
 @st.composite
 def step_strategy(draw):
-    kind = draw(st.sampled_from(["register"] * 6 + ["unregister_one", "unregister_all", "auth", "auth", "auth_unregister"]))
+    kind = draw(st.sampled_from(["register"] * 6 + ["unregister_one", "unregister_one", "unregister_all", "reregister", "reregister", "auth", "auth", "auth_unregister"]))
+    if kind == "reregister":
+        return {"op": "reregister", "which": draw(st.integers(0, 5)), "scope": draw(st.sampled_from(SCOPES)), "form": draw(st.sampled_from(FORMS)), "chain": draw(chain_strategy)}
     if kind == "register":
         return {"op": "register", "scope": draw(st.sampled_from(SCOPES)), "hook": draw(st.sampled_from(HOOK_KINDS)), "form": draw(st.sampled_from(FORMS)), "chain": draw(chain_strategy)}
     if kind == "unregister_one":
@@ -415,12 +428,23 @@ def enum_histories(tier, shard, nshards):
         for ch in chains
         if not (fm == "chain_then_name" and not ch)
     ] + [{"op": "unregister_one", "which": 0}]
+    # the function object of an unregistered hook registered again: unfiltered, and with another filter
+    steps += [{"op": "reregister", "which": 0, "scope": sc, "form": fm, "chain": ch} for sc in ("global", "test") for fm in ("plain", "named") for ch in (chains[0], chains[2])]
     count = 0
     for k in (1, 2) if tier == "quick" else (1, 2, 3):
         for combo in itertools.product(steps, repeat=k):
             count += 1
             if count % nshards == shard:
                 yield list(combo)
+    # register -> unregister -> register the same function object again (three steps: enumerated in both tiers)
+    for first in steps:
+        if first["op"] != "register":
+            continue
+        for again in steps:
+            if again["op"] == "reregister":
+                count += 1
+                if count % nshards == shard:
+                    yield [first, {"op": "unregister_one", "which": 0}, again]
 
 
 def run_machine(ctx: Ctx, spec: dict) -> None:
@@ -477,6 +501,6 @@ FLOOR = {"machine": 500, "histories_enum": 1000}
 MANIFEST = {
     "category": "exploration",
     "technique": "Hypothesis stateful (rule-based) machine + bounded exhaustive enumeration of registration histories against a filter-semantics model",
-    "text": "Registration histories (10 hook kinds x 3 scopes x 4 decorator forms x apply_to/skip_for chains, unregister one/all, auth providers with filters) are executed on fresh dispatchers; after every step a case is drawn for each of six operations and the markers / call log / auth token are compared with a model that evaluates each registration's own filter set independently (vfw/oracle/selection.py). All histories of <=2 (quick) / <=3 (thorough) steps over a reduced step universe are enumerated; longer ones come from a RuleBasedStateMachine.",
+    "text": "Registration histories (10 hook kinds x 3 scopes x 4 decorator forms x apply_to/skip_for chains, unregister one/all, re-registration of an unregistered function object with other filters, auth providers with filters) are executed on fresh dispatchers; after every step a case is drawn for each of six operations and the markers / call log / auth token are compared with a model that evaluates each registration's own filter set independently (vfw/oracle/selection.py). All histories of <=2 (quick) / <=3 (thorough) steps over a reduced step universe are enumerated; longer ones come from a RuleBasedStateMachine.",
     "note": "Trusts Hypothesis; effects are observed on generated cases (markers in query/headers, call log); auth fallback between scopes when the higher scope filters the operation out is not asserted (statement silent).",
 }
